@@ -43,17 +43,8 @@ type evVec struct {
 	Why  []string   `json:"why"`
 }
 
-// validate builds real events from the vector and runs eventcheck.Checkers.Validate on them.
-func (v evVec) validate() (accepted bool, errText string, panicked bool) {
-	ids := make([]idx.ValidatorID, len(v.Vals))
-	for i, x := range v.Vals {
-		ids[i] = idx.ValidatorID(x)
-	}
-	ch := eventcheck.Checkers{
-		Basiccheck:   basiccheck.New(),
-		Epochcheck:   epochcheck.New(epochReader{pos.EqualWeightValidators(ids, 1), idx.Epoch(v.Cur)}),
-		Parentscheck: parentscheck.New(),
-	}
+// events builds the real event and its parents from the vector.
+func (v evVec) events() (dag.Event, dag.Events) {
 	// the parents: real events; entries with the same identity k are the same event
 	byK := map[uint32]*tdag.TestEvent{}
 	parents := make(dag.Events, 0, len(v.Ps))
@@ -86,6 +77,21 @@ func (v evVec) validate() (accepted bool, errText string, panicked bool) {
 	var tail [24]byte
 	tail[0] = 0xEE
 	e.SetID(tail)
+	return e, parents
+}
+
+// validate builds real events from the vector and runs eventcheck.Checkers.Validate on them.
+func (v evVec) validate() (accepted bool, errText string, panicked bool) {
+	ids := make([]idx.ValidatorID, len(v.Vals))
+	for i, x := range v.Vals {
+		ids[i] = idx.ValidatorID(x)
+	}
+	ch := eventcheck.Checkers{
+		Basiccheck:   basiccheck.New(),
+		Epochcheck:   epochcheck.New(epochReader{pos.EqualWeightValidators(ids, 1), idx.Epoch(v.Cur)}),
+		Parentscheck: parentscheck.New(),
+	}
+	e, parents := v.events()
 	var err error
 	panicked, msg := catch(func() { err = ch.Validate(e, parents) })
 	if panicked {
